@@ -99,6 +99,7 @@ def gen_program(rng, size: int = 10, with_args: bool = True, control_flow: bool 
             "arg_default", "arg_default", "seq_pair", "opt_pair",
             "inline0", "inline0", "intdiv", "intdiv", "intdiv_shape", "intdiv_shape",
             "intros", "intros", "unsafe", "inline_const", "inline_const",
+            "loop_perm", "loop_perm", "bigconst", "bigconst",
         ])
         if choice == "const":
             new_const()
@@ -314,6 +315,34 @@ def gen_program(rng, size: int = 10, with_args: bool = True, control_flow: bool 
                 j = pick(lambda v: is_num(v) and v.shape == [3] and v.dt == "i64")
                 emit({"op": "inline", "args": [i, j]}, _V("tensor", "i64", [3], vs[i].const and vs[j].const),
                      _V("tensor", "i64", [3], vs[i].const and vs[j].const))
+        elif choice == "loop_perm":
+            # Loop with >= 2 carried values with constant initial values whose body hands them on permuted /
+            # rotated / untouched; the trip count is a model input (0..3 at run time) or a constant
+            if control_flow:
+                k = rng.choice([2, 2, 3])
+                inits_data = [[3, 4], [2, 6], [4, 3]][:k]
+                perm = rng.choice({2: [[1, 0], [1, 0], [0, 1]], 3: [[1, 2, 0], [2, 0, 1], [0, 2, 1], [1, 0, 2]]}[k])
+                if with_args and rng.random() < 0.75:
+                    nvar = new_arg("i64", [])
+                else:
+                    nvar = emit({"op": "const", "how": "value", "dt": "i64", "shape": [], "data": [rng.randrange(0, 4)]}, _V("tensor", "i64", [], True))
+                inits = [emit({"op": "const", "how": rng.choice(["value", "init"]), "dt": "i64", "shape": [2], "data": d}, _V("tensor", "i64", [2], True))
+                         for d in inits_data]
+                first = emit({"op": "loop_perm", "args": [nvar] + inits, "perm": perm},
+                             *[_V("tensor", "i64", [2], False) for _ in range(k)])
+                data = new_const(rng.choice(["f32", "i64"]), [12], "value")
+                emit({"op": "reshape", "args": [data, first + rng.randrange(k)]}, _V("opaque", None, None, False))
+        elif choice == "bigconst":
+            # size classes around the 1024-element boundary x byte orders x Constant / initializer
+            n = rng.choice([1023, 1024, 1025, 5000])
+            dt = rng.choice(["f32", "i32", "i64", "f64"])
+            st = {"op": "const", "how": rng.choice(["value", "init"]), "dt": dt, "shape": rng.choice([[n], [n]] + ([[n // 8, 8]] if n % 8 == 0 else [])), "gen": "pattern"}
+            if rng.random() < 0.6:
+                st["endian"] = ">"
+            b = emit(st, _V("tensor", dt, list(st["shape"]), True))
+            lo = emit({"op": "const", "how": "value", "dt": "i64", "shape": [1], "data": [0]}, _V("tensor", "i64", [1], True))
+            hi = emit({"op": "const", "how": "value", "dt": "i64", "shape": [1], "data": [3]}, _V("tensor", "i64", [1], True))
+            emit({"op": "slice", "args": [b, lo, hi]}, _V("tensor", dt, [3] + list(st["shape"][1:]), True))
         elif choice == "intros":
             # spox._internal_op.intros / intro: aliases with a shared dependency. A non-constant Var standing
             # *before* constants of the same dtype / shape (a slot shift would hand it a "constant").
@@ -456,7 +485,12 @@ def _passthrough_model(dt: str, shape: tuple):
 
 def _array(step):
     dt = step["dt"]
-    arr = np.array(step["data"], dtype=_NP[dt]).reshape(tuple(step["shape"]))
+    if step.get("gen") == "pattern":
+        n = int(np.prod(step["shape"]))
+        base = (np.arange(n, dtype=np.int64) * 7919) % 2003 - 1000
+        arr = (base / 8.0 if dt in ("f32", "f64") else base).astype(_NP[dt]).reshape(tuple(step["shape"]))
+    else:
+        arr = np.array(step["data"], dtype=_NP[dt]).reshape(tuple(step["shape"]))
     if step.get("endian") == ">":
         arr = arr.astype(arr.dtype.newbyteorder(">"))
     return arr
@@ -516,6 +550,11 @@ def apply_step(step: dict, vars_: list) -> list:
         if step["by"] == "sizes":
             return [op.resize(a[0], None, None, a[1], mode="nearest")]
         return [op.resize(a[0], None, a[1], None, mode="nearest")]
+    if o == "loop_perm":
+        perm = step["perm"]
+        trips = op.min([op.abs(a[0]), op.constant(value=np.array(3, dtype=np.int64))])
+        return list(op.loop(trips, v_initial=list(a[1:]),
+                            body=lambda _i, _c, *vs: [op.constant(value=np.array(True))] + [vs[p] for p in perm]))
     if o == "intros":
         from spox._internal_op import intros
 
@@ -715,6 +754,7 @@ def c07_check_program(steps: list, sel: str, seed: int) -> dict:
     vars_ = r["vars"]
     valued = [(i, v) for i, v in enumerate(vars_) if L.has_value(v)]
     stats["valued"] = len(valued)
+    stats["control_flow_valued"] = sum(1 for i, _ in valued if steps[r["step_of_var"][i]]["op"] in ("if", "loop_perm"))
     for i, v in valued:
         opn = steps[r["step_of_var"][i]]["op"]
         why = L.conforms_var(v)
@@ -953,7 +993,7 @@ def _const_array(step):
 def record_history(steps: list, sel: str, script=None, at: str = "run") -> dict:
     """Run the program and describe it as a model history (`VP.Step` list) together with the values
     the real code attached. Programs with control flow are not described (returns {"skip": ...})."""
-    if any(st["op"] in ("if", "unsafe_reshape", "unsafe_cast") for st in steps):
+    if any(st["op"] in ("if", "loop_perm", "unsafe_reshape", "unsafe_cast") for st in steps):
         return {"skip": "control flow / unsafe_* (outside the history model)"}
     reg = L.PidRegistry()
     nonconf: list = []
